@@ -460,7 +460,7 @@ Vector Matrix::Return_Column(unsigned int column) const
 // Binary operations
 Matrix Matrix::Plus(const Matrix& M) const
 {
-	if(rows != M.Columns() || columns != M.Rows())
+	if(rows != M.Rows() || columns != M.Columns())
 	{
 		std::cerr << "Error in libphysica::Matrix::Plus(const Matrix&): The dimensions of the two matrices to be added do not match: (" << rows << "x" << columns << ") + (" << M.Rows() << "x" << M.Columns() << ")." << std::endl;
 		std::exit(EXIT_FAILURE);
@@ -481,7 +481,7 @@ Matrix Matrix::Plus(const Matrix& M) const
 
 Matrix Matrix::Minus(const Matrix& M) const
 {
-	if(rows != M.Columns() || columns != M.Rows())
+	if(rows != M.Rows() || columns != M.Columns())
 	{
 		std::cerr << "Error in libphysica::Matrix::Minus(const Matrix&): The dimensions of the two matrices to be subtracted do not match: (" << rows << "x" << columns << ") - (" << M.Rows() << "x" << M.Columns() << ")." << std::endl;
 		std::exit(EXIT_FAILURE);
@@ -883,7 +883,7 @@ Matrix Matrix::operator=(Matrix M)
 
 Matrix& Matrix::operator+=(const Matrix& M)
 {
-	if(rows != M.Columns() || columns != M.Rows())
+	if(rows != M.Rows() || columns != M.Columns())
 	{
 		std::cerr << "Error in libphysica::Matrix::operator+=(): The dimensions of the two matrices to be added do not match." << std::endl;
 		std::exit(EXIT_FAILURE);
@@ -899,7 +899,7 @@ Matrix& Matrix::operator+=(const Matrix& M)
 
 Matrix& Matrix::operator-=(const Matrix& M)
 {
-	if(rows != M.Columns() || columns != M.Rows())
+	if(rows != M.Rows() || columns != M.Columns())
 	{
 		std::cerr << "Error in libphysica::Matrix::operator-=(): The dimensions of the two matrices to be subtracted do not match." << std::endl;
 		std::exit(EXIT_FAILURE);
